@@ -18,4 +18,21 @@ PROPS = {
                         'bufio.Reader in front of wsConn only issues Read calls of some sizes: the theorem quantifies over all size sequences'],
         'trusted': ['server/verif_hooks.go: VerifNewWsConn builds the wsConn exactly as wsHandler does'],
     },
+    'C02': {
+        'suites': [('sub', 1500, 60000), ('tm', 72000, 400000)],
+        'rule': 'sub: random histories (0-30 ops) of Subscribe/Unsubscribe/UnsubscribeAll by 3 clients over a pool of 2-8 filters built from levels {a,b,"",+,$s,ab,#} '
+                '(shared and non-shared, near-legal filters 3%), then ~30 lookups (by topic, by exact filter, by client, all type masks) + GetStats/GetClientStats; '
+                'non-trivial = >=3 ops and at least one lookup returns an entry. tm: all pairs of strings over {a,b,/,+,#,$} up to length 3 (67081 pairs) + random structured pairs; '
+                'non-trivial = both strings well-formed (name, filter). distinct = distinct case inputs',
+        'assumptions': ['node pointers held in the indexes are modelled as paths into the trie (pointer identity is what the differential run checks)',
+                        'share names contain no "/" and client ids are non-empty (wf_ops): what the broker passes to the store'],
+        'trusted': [],
+    },
+    'C11': {
+        'suites': [('subsh', 1500, 60000)],
+        'rule': 'subsh: same generator as sub (40% of subscriptions shared, 2 groups, 3 clients incl. one client in several groups on one filter); '
+                'oracle on the purely-shared and mixed lookups; non-trivial = >=3 ops and at least one lookup returns an entry',
+        'assumptions': ['share names contain no "/" (wf_ops)'],
+        'trusted': [],
+    },
 }
